@@ -6,18 +6,20 @@ cd $W || exit 2
 test -s seed_out/patch.diff || { echo "no patch"; exit 2; }
 COMPILED=$(grep -E '^\+\+\+ b/.*\.(pyx|pxd|cpp|h)$' seed_out/patch.diff | wc -l)
 rebuild() { if [ "$COMPILED" != 0 ]; then /venv/bin/python setup.py build_ext -i -j 8 > build.log 2>&1 || { tail -5 build.log; return 1; }; fi; }
-git diff --quiet -- whatshap src && { echo "change not applied in worktree; applying"; git apply seed_out/patch.diff || exit 2; }
+# make the working tree exactly "HEAD + the agent's patch" (concurrent agents once swapped changes through the shared stash)
+git checkout -- whatshap src && git apply seed_out/patch.diff || { echo "cannot apply seed_out/patch.diff"; exit 2; }
 rebuild || exit 2
 env -u PYTHONPATH /venv/bin/python seed_out/demo.py > /tmp/seed/$ID.demo_with.log 2>&1; WITH=$?
 SUITE=$(env -u PYTHONPATH -u WHATSHAP_VERIF_TRACE /venv/bin/python -m pytest -q -p no:cacheprovider --timeout=900 2>&1 | tail -1)
-git stash -q -- whatshap src
+# (git stash is shared between all worktrees of a repository: never use it while other agents work)
+git diff -- whatshap src > /tmp/seed/$ID.current.diff
+git apply -R /tmp/seed/$ID.current.diff || exit 2
 rebuild
 env -u PYTHONPATH /venv/bin/python seed_out/demo.py > /tmp/seed/$ID.demo_without.log 2>&1; WITHOUT=$?
-git stash pop -q
+git apply /tmp/seed/$ID.current.diff || exit 2
 rebuild
 echo "demo_with=$WITH demo_without=$WITHOUT suite='$SUITE' compiled_files=$COMPILED"
 mkdir -p $OUT && cp seed_out/patch.diff seed_out/demo.py $OUT/ && cp seed_out/notes.md $OUT/notes.md 2>/dev/null
-git diff -- whatshap src > $OUT/patch.diff
 cat > $OUT/verify.txt <<EOT
 demo exit status with the change: $WITH
 demo exit status without the change: $WITHOUT
